@@ -9,7 +9,7 @@ use std::collections::BTreeMap;
 pub fn monitor() -> Monitor {
   Monitor { id: "C19",
     rule: "positions = sph_coo(h, dx, dy) for the four quadrant centres, the centre, random interior offsets and offsets within 1e-9 of 0.5 / of the borders, for the class-sampled cells of every depth 0..29 (every cell for depth <= 3/5), with emphasis on the 24 cells per depth lacking a S/E/N/W neighbour; plus the hostile position set (seams, poles, +-ulps, negative / >2pi longitudes) at all depths. Non-trivial = position in a cell with a missing neighbour, or in a cell on a base-cell border (the 4 cells span two base cells), or hostile class, or offset within 1e-9 of a quadrant boundary.",
-    assumptions: &["Layer::neighbours geometrically correct (C04)", "reference offsets of a position inside a cell (refm::ref_offsets)"],
+    assumptions: &["adjacency of two cells = they share a reference vertex (refm::cells_adjacent; independent of Layer::neighbours)", "reference offsets of a position inside a cell (refm::ref_offsets)"],
     run, replay }
 }
 
@@ -65,10 +65,10 @@ pub fn judge(ctx: &mut Ctx, layer: &'static Layer, depth: u8, lon: f64, lat: f64
   let tol = plane_tol(lon) + 4e-16;
   let hc = r.iter().map(|c| c.0).find(|&c| contains(depth, c, lon, lat, tol).0);
   let hc = match hc { Some(h) => h, None => { ctx.violation("no-returned-cell-contains-the-position", mk.clone(), format!("{:?}", r)); return; } };
-  let ng = layer.neighbours(hc, true).values_vec();
-  if r.iter().any(|c| !ng.contains(&c.0)) {
+  // adjacency is decided by the reference geometry (shared vertex), not by the neighbour tables of the crate
+  if r.iter().any(|c| !cells_adjacent(depth, hc, c.0)) {
     // the position may sit on a border: try the other returned cells containing it
-    let ok = r.iter().map(|c| c.0).filter(|&c| contains(depth, c, lon, lat, tol).0).any(|c| { let n2 = layer.neighbours(c, true).values_vec(); r.iter().all(|x| n2.contains(&x.0)) });
+    let ok = r.iter().map(|c| c.0).filter(|&c| contains(depth, c, lon, lat, tol).0).any(|c| r.iter().all(|x| cells_adjacent(depth, c, x.0)));
     if !ok { ctx.violation("returned-cell-is-neither-the-containing-cell-nor-a-neighbour", mk.clone(), format!("containing {} result {:?}", hc, r)); }
   }
   if let Some((h, ox, oy)) = built {
